@@ -26,6 +26,9 @@ type rtCase struct {
 func labelCommon(s cspec, b *built, r *h.Rec) {
 	r.Label(s.label())
 	r.Label("key:" + s.Key)
+	if _, cname, ok := nistCurveOf(s.Key); ok && isNISTClass(s.Key) {
+		r.Label("curve:" + cname)
+	}
 	if b.auth != authNone && s.Cont != "env" {
 		r.Label(pwClassNames[s.Pw])
 	}
